@@ -263,3 +263,11 @@ package txpool
 //@   ensures len(seqHeap.seqHeap) == old(len(seqHeap.seqHeap))
 //@   note replacing a same-sequence transaction keeps the data-structure invariant for the new transaction: it sits in the min-heap, in the max-heap iff the old one was pending, and in the sequence heap of the sender heap that s.senders maps its sender to (so a later lookup, forward, removal or trim reaches it)
 
+
+//@ func mainQueueScheduler.add
+//@   props C20
+//@   requires s != nil && tx != nil && tx.meta != nil && s.txs != nil && s.senders != nil && tx.maxHeapIndex == -1
+//@   requires inDom(s.senders, tx.sender) ==> s.senders[tx.sender] != nil && s.senders[tx.sender].txs != nil
+//@   requires inDom(s.senders, tx.sender) ==> (forall q uint64 :: inDom(s.senders[tx.sender].txs, q) ==> s.senders[tx.sender].txs[q] != nil && s.senders[tx.sender].txs[q] != tx && s.senders[tx.sender].txs[q].meta != nil && s.senders[tx.sender].txs[q].sender == tx.sender && s.senders[tx.sender].txs[q].seq == q && TxOK(s, s.senders[tx.sender].txs[q], s.senders[tx.sender]))
+//@   precall txpool\.senderTxHeap\)\.get$ :: argIs(0, tx.seq) && tx.seq >= seqHeap.seq
+//@   note the replace / insert section is reached only for a transaction whose sequence number is not below the sender's CURRENT sequence number in the pool (which handleTxUsed / forward may have advanced past the state sequence number the caller passes in): an expired transaction is never admitted
